@@ -100,6 +100,29 @@ __CPROVER_assigns()
 __CPROVER_ensures(__CPROVER_return_value == (uint32)((includeHeaders ? 12u + f->nameBytes : 0u) + f->numItems * f->itemSize))
 ;
 """ % MM_FIXED, 'const MMessageField *f; MBool h; GetMMessageFieldFlattenedSize(f, h);', None, dict(unwind=1)),
+    # the allocator every imported fixed-size field goes through: one block = [struct][numItems*itemSize zeroed data bytes][name],
+    # data and name pointers inside that block, name NUL-terminated; a zero-item request yields NULL
+    ('AllocMMessageField', 'static MMessageField * AllocMMessageField(const char * fieldName, uint32 numNameBytes, uint32 typeCode, uint32 numItems, uint32 itemSize)\n{', r"""
+#define MV_DSZ ((unsigned long)numItems * (unsigned long)itemSize)
+static MMessageField * AllocMMessageField(const char * fieldName, uint32 numNameBytes, uint32 typeCode, uint32 numItems, uint32 itemSize)
+__CPROVER_requires(numNameBytes >= 1 && numNameBytes <= MV_MAXNAME && __CPROVER_is_fresh(fieldName, numNameBytes))
+__CPROVER_requires(numItems <= MV_MAXITEMS && itemSize <= 16)
+__CPROVER_assigns()
+__CPROVER_ensures(numItems == 0 ==> __CPROVER_return_value == NULL)
+__CPROVER_ensures(__CPROVER_return_value != NULL ==> __CPROVER_is_fresh(__CPROVER_return_value, sizeof(MMessageField) + MV_DSZ + numNameBytes))
+__CPROVER_ensures(__CPROVER_return_value != NULL ==> (__CPROVER_return_value->numItems == numItems && __CPROVER_return_value->itemSize == itemSize &&
+   __CPROVER_return_value->typeCode == typeCode && __CPROVER_return_value->nameBytes == numNameBytes &&
+   __CPROVER_return_value->prevField == NULL && __CPROVER_return_value->nextField == NULL &&
+   __CPROVER_return_value->isFixedSize == MTrue && __CPROVER_return_value->isFlattenable == MTrue &&
+   __CPROVER_return_value->allocSize >= sizeof(MMessageField) + MV_DSZ + numNameBytes &&
+   (const char *)__CPROVER_return_value->data == (const char *)__CPROVER_return_value + sizeof(MMessageField) &&
+   __CPROVER_return_value->name == (const char *)__CPROVER_return_value->data + MV_DSZ))
+__CPROVER_ensures(__CPROVER_return_value != NULL ==> __CPROVER_return_value->name[numNameBytes - 1] == 0)
+__CPROVER_ensures((__CPROVER_return_value != NULL && mv_k < numNameBytes - 1) ==> __CPROVER_return_value->name[mv_k] == fieldName[mv_k])
+__CPROVER_ensures((__CPROVER_return_value != NULL && mv_k < MV_DSZ) ==> ((const char *)__CPROVER_return_value->data)[mv_k] == 0)
+;
+""", 'const char *nm; uint32 nb, tc, ni, is; unsigned int k; mv_k = k; AllocMMessageField(nm, nb, tc, ni, is);',
+     'field name <= 6 bytes, <= 3 items of <= 16 bytes each', dict(defines=['MV_MAXNAME=6', 'MV_MAXITEMS=3'])),
 ]
 
 
@@ -131,7 +154,7 @@ def meta(tier):
     L = codec.lower()
     m = codec.meta_common(L)
     m.update(level='proof',
-             not_lowered=['Message::Flatten framing (Hashtable iteration)', 'lang/python3 (no verifier for Python here)', 'MiniMessage.c above its leaves: MMFlattenMessage / MMUnflattenMessage / FlattenMMessageField / SwapCopy are not under contract (only the cursor read/write ReadData / WriteData, WillUnsignedAddOverflow, the type table IsTypeCodeVariableSize and GetMMessageFieldFlattenedSize for fixed-size field types are); WillUnsignedMultiplyOverflow: contract tried (result == 64-bit product > 2^32-1), the 32-bit divide does not finish on any back end in 4 min, not registered', 'MicroMessage field-level writers UMAdd* (only its primitive readers/writers are covered)'],
+             not_lowered=['Message::Flatten framing (Hashtable iteration)', 'lang/python3 (no verifier for Python here)', 'MiniMessage.c above its leaves: MMFlattenMessage / MMUnflattenMessage / FlattenMMessageField / SwapCopy are not under contract (only the cursor read/write ReadData / WriteData, WillUnsignedAddOverflow, the type table IsTypeCodeVariableSize, GetMMessageFieldFlattenedSize for fixed-size field types and AllocMMessageField are); WillUnsignedMultiplyOverflow: contract tried (result == 64-bit product > 2^32-1), the 32-bit divide does not finish on any back end in 4 min, not registered', 'MicroMessage field-level writers UMAdd* (only its primitive readers/writers are covered)'],
              explanation='Each LittleEndianConverter::Export/Import overload and each DataFlattener Write* method is enforced against the documented byte layout '
                          '(exactly sizeof(T) bytes, byte k = bits 8k..8k+7) for all 2^(8*sizeof T) values; the writer contracts add cursor and frame conditions.')
     return m
